@@ -35,6 +35,8 @@ def units(ctx):
         for k, spec in enumerate(fam2):
             # thorough: the 9^5 ordered sequences for every third cone, 9^4 for the others (cost)
             us.append(("seqs", spec, 2, N2 if (not ctx.thorough or k % 3 == 0) else 4, s, ctx.seed))
+            if k % 4 == 0:
+                us.append(("seqs", spec, 2, 3, s, ctx.seed, 1))  # the same lattice translated by 2^17 steps
         for spec in fam3:
             us.append(("seqs", spec, 3, N3, s, ctx.seed))
     for spec in fam2 + fam3:
@@ -86,13 +88,15 @@ def _oracle_check(order, spec, V, D, res, case):
     return None
 
 
-def _run_seq_space(spec, m, N, sc, seed, res, only=None):
+def _run_seq_space(spec, m, N, sc, seed, res, only=None, far=0):
     core.import_vopy()
     order = cones.make_order(spec)
     W = order.ordering_cone.W
     intW = bool(np.all(W == np.round(W)))
     step = sc
     off = lattice.offset_for(seed, m, step)
+    if far:
+        off = off + (2.0 ** 17) * step * np.array([1.0, -1.0, 1.0][:m])
     base = lattice.grid(m, 0, 2 if m == 2 else 1)
     pts = [p * step + off for p in base]
     L = len(pts)
@@ -123,7 +127,7 @@ def _run_seq_space(spec, m, N, sc, seed, res, only=None):
                 continue
             V = [pts[a] for a in seq]
             D = [[Dp[a][b] for b in seq] for a in seq]
-            case = {"mode": "seqs", "spec": spec, "m": m, "N": N, "sc": sc, "seed": seed, "seq": list(seq)}
+            case = {"mode": "seqs", "spec": spec, "m": m, "N": N, "sc": sc, "seed": seed, "seq": list(seq), "far": far}
             v = _oracle_check(order, spec, V, D, res, case)
             if n >= 2:
                 res["nontrivial"] += 1
@@ -210,7 +214,7 @@ def _run_grammar(spec, m, sc, seed, res, only=None):
 def run_unit(unit):
     res = core.new_result()
     if unit[0] == "seqs":
-        _run_seq_space(unit[1], unit[2], unit[3], unit[4], unit[5], res)
+        _run_seq_space(unit[1], unit[2], unit[3], unit[4], unit[5], res, far=(unit[6] if len(unit) > 6 else 0))
     else:
         _run_grammar(unit[1], unit[2], unit[3], unit[4], res)
     return res
@@ -223,7 +227,7 @@ def _spec(s):
 def replay_case(case):
     res = core.new_result()
     if case["mode"] == "seqs":
-        _run_seq_space(_spec(case["spec"]), case["m"], case["N"], case["sc"], case["seed"], res, only=list(case["seq"]))
+        _run_seq_space(_spec(case["spec"]), case["m"], case["N"], case["sc"], case["seed"], res, only=list(case["seq"]), far=case.get("far", 0))
     else:
         _run_grammar(_spec(case["spec"]), case["m"], case["sc"], case["seed"], res, only=case["word"])
     return res["violations"]
